@@ -90,3 +90,62 @@ def run_head(ctx):
             ctx.violate("request-sizes-bounded", "recv-size-from-declared-length", inp, "<= 16384", str(max(sock.recv_sizes)), size=len(s))
         if ws.connected and "connected" not in res:
             ctx.violate("result-consistent", "connected-after-failed-connect", inp, "not connected", res, size=len(s))
+    run_histories(ctx)
+
+
+def run_histories(ctx):
+    """what earlier handshakes of the process left behind is network input too: the cookie jar is filled from the
+    Set-Cookie headers of accepted responses and read when the NEXT request is built.  Histories of 2-3 accepted handshakes
+    whose Set-Cookie values are built from nested / equal / unrelated domains, equal and different names, odd values — then
+    one more connect: it returns or raises a documented exception, never an internal error.  Real runs, oracle only."""
+    import base64
+    import hashlib
+    import websocket
+    from websocket import _handshake
+    rnd = ctx.rng("head-histories")
+    key_raw = bytes(16)
+    acc = base64.b64encode(hashlib.sha1(base64.b64encode(key_raw) + b"258EAFA5-E914-47DA-95CA-C5AB0DC85B11").digest()).decode()
+    doms = ["sub.example.test", "example.test", ".example.test", "EXAMPLE.test", "other.test", "test", "", "a.sub.example.test"]
+    names = ["sid", "sid", "tok", "SID", "x-1"]
+    vals = ["1", "9", "", "a b", "\"q\"", "v;w", "caf\u00e9"]
+    hosts = ["sub.example.test", "example.test", "a.sub.example.test", "other.test"]
+    old = os.urandom
+    n = 1500 if ctx.thorough() else 250
+    for it in range(n):
+        hist = []
+        for _ in range(rnd.randint(2, 3)):
+            parts = [f"{rnd.choice(names)}={rnd.choice(vals)}"]
+            if rnd.random() < 0.3:
+                parts.append(f"{rnd.choice(names)}={rnd.choice(vals)}")
+            sc_ = "; ".join(parts)
+            d = rnd.choice(doms)
+            if rnd.random() < 0.9:
+                sc_ += f"; Domain={d}"
+            if rnd.random() < 0.3:
+                sc_ += "; Path=/; Secure"
+            hist.append((rnd.choice(hosts), sc_))
+        last = rnd.choice(hosts)
+        _handshake.CookieJar.jar.clear()
+        results = []
+        os.urandom = lambda k: bytes(k)
+        try:
+            for host, setc in hist + [(last, None)]:
+                head = "HTTP/1.1 101 Switching Protocols\r\nUpgrade: websocket\r\nConnection: Upgrade\r\n" + \
+                       f"Sec-WebSocket-Accept: {acc}\r\n" + (f"Set-Cookie: {setc}\r\n" if setc is not None else "") + "\r\n"
+                sock = simnet.SimSocket([("chunk", head.encode("utf-8"))], tail="timeout")
+                ws = websocket.WebSocket()
+                try:
+                    ws.connect(f"ws://{host}/", socket=sock)
+                    results.append("connected")
+                except Exception as e:  # noqa
+                    results.append(common.canon_exc(e))
+        finally:
+            os.urandom = old
+            _handshake.CookieJar.jar.clear()
+        ctx.case(key=("head-history", it, tuple(hist), last), nontrivial=True, cls=f"head-phase:history:len={len(hist)}")
+        bad = [r for r in results if r != "connected" and not allowed(r)]
+        if bad:
+            ctx.violate("only-documented-exceptions", "head-phase-connect-after-earlier-handshakes-" + bad[0][:40],
+                        {"op": "successive connect() calls of one process (shared cookie jar)", "earlier_handshakes(host, Set-Cookie)": hist,
+                         "then_connect_to": last}, "connected or a documented exception", results, size=len(hist) + 1)
+
